@@ -128,6 +128,12 @@ pub fn run(ctx: &Ctx) -> Report {
             check(&u, &format!("{}:nan-xy", case), rep);
             rep.count("nan_coordinate_variants", 1);
         }
+        // the same polygon / multipatch with vertex-less rings / patches inserted after the first
+        if gen::is_polygon(t) || t == 31 {
+            let u = gen::with_empty_parts(&s, &mut r);
+            check(&u, &format!("{}:empty-parts", case), rep);
+            rep.count("vertexless_part_variants", 1);
+        }
     });
     // ---- shapes that do not come out of a constructor: polygons converted from polylines
     //      (rings left open) and shapes decoded from foreign-layout files (unclosed rings, empty
